@@ -599,3 +599,119 @@ Example streaming_nontrivial :
     [(1, Some [], false); (2, Some [], false); (1, Some [97], false); (1, Some [97], false); (2, Some [97], false);
      (1, Some [98], false); (0, None, true); (0, None, true)].
 Proof. vm_compute. reflexivity. Qed.
+
+(* ======================= extension: SortableStrVec::binary_search, ZoSortedStrVec ======================= *)
+From ZV.C20 Require Import ModelSearch ModelZo ProofsSearch ProofsZo ProofsZoAccept ModelSsv ProofsSsv.
+Open Scope N_scope.
+
+(* SortableStrVec::binary_search (small path and block path: binary search over the block starts, then the scan of one block)
+   on every sorted enumeration with duplicates and empty strings, every block size >= 1: Ok(i) points at the needle, Err(i) is the
+   insertion point *)
+Theorem ssv_binary_search_spec :
+  forall l t bs, sorted_strs l -> (1 <= bs)%nat ->
+    match ssv_binary_search l t bs with
+    | Found m => (m < length l)%nat /\ lex (nth_str l m) t = Eq
+    | NotFound k => (k <= length l)%nat /\ (forall i, (i < k)%nat -> lex (nth_str l i) t = Lt) /\
+                    (forall i, (k <= i)%nat -> (i < length l)%nat -> lex (nth_str l i) t = Gt)
+    end.
+Proof. exact (fun l t bs Hs Hb => ssv_binary_search_ok l t bs Hs Hb). Qed.
+Check ssv_binary_search_spec :
+  forall l t bs, sorted_strs l -> (1 <= bs)%nat ->
+    match ssv_binary_search l t bs with
+    | Found m => (m < length l)%nat /\ lex (nth_str l m) t = Eq
+    | NotFound k => (k <= length l)%nat /\ (forall i, (i < k)%nat -> lex (nth_str l i) t = Lt) /\
+                    (forall i, (k <= i)%nat -> (i < length l)%nat -> lex (nth_str l i) t = Gt)
+    end.
+Print Assumptions ssv_binary_search_spec.
+
+(* ZoSortedStrVec over the NUL-terminated data + boundary bits: get reads back every string of any list without NUL bytes (empty
+   strings and duplicates included), iter() enumerates the list; on sorted lists binary_search finds exactly, lower_bound is the
+   first string >= the needle, range(lo, hi) is the segment between the two lower bounds (all duplicates) *)
+Theorem zo_spec :
+  forall ss, Forall (no_byte 0) ss ->
+    (forall i, zo_get (zo_build ss) i = nth_error ss i) /\
+    zo_iter (zo_build ss) = ss /\
+    (sorted_strs ss -> forall t,
+       match zo_binary_search (zo_build ss) t with
+       | Found m => (m < length ss)%nat /\ lex (nth_str ss m) t = Eq
+       | NotFound k => (k <= length ss)%nat /\ (forall i, (i < k)%nat -> lex (nth_str ss i) t = Lt) /\
+                       (forall i, (k <= i)%nat -> (i < length ss)%nat -> lex (nth_str ss i) t = Gt)
+       end) /\
+    (sorted_strs ss -> forall t,
+       let k := zo_lower_bound (zo_build ss) t in
+       (k <= length ss)%nat /\ (forall i, (i < k)%nat -> lex (nth_str ss i) t = Lt) /\
+       (forall i, (k <= i)%nat -> (i < length ss)%nat -> lex (nth_str ss i) t <> Lt)) /\
+    (sorted_strs ss -> forall lo hi,
+       let a := zo_lower_bound (zo_build ss) lo in
+       let b := zo_lower_bound (zo_build ss) hi in
+       zo_range (zo_build ss) lo hi = firstn (b - a) (skipn a ss)).
+Proof. exact zo_spec_proof. Qed.
+Check zo_spec :
+  forall ss, Forall (no_byte 0) ss ->
+    (forall i, zo_get (zo_build ss) i = nth_error ss i) /\
+    zo_iter (zo_build ss) = ss /\
+    (sorted_strs ss -> forall t,
+       match zo_binary_search (zo_build ss) t with
+       | Found m => (m < length ss)%nat /\ lex (nth_str ss m) t = Eq
+       | NotFound k => (k <= length ss)%nat /\ (forall i, (i < k)%nat -> lex (nth_str ss i) t = Lt) /\
+                       (forall i, (k <= i)%nat -> (i < length ss)%nat -> lex (nth_str ss i) t = Gt)
+       end) /\
+    (sorted_strs ss -> forall t,
+       let k := zo_lower_bound (zo_build ss) t in
+       (k <= length ss)%nat /\ (forall i, (i < k)%nat -> lex (nth_str ss i) t = Lt) /\
+       (forall i, (k <= i)%nat -> (i < length ss)%nat -> lex (nth_str ss i) t <> Lt)) /\
+    (sorted_strs ss -> forall lo hi,
+       let a := zo_lower_bound (zo_build ss) lo in
+       let b := zo_lower_bound (zo_build ss) hi in
+       zo_range (zo_build ss) lo hi = firstn (b - a) (skipn a ss)).
+Print Assumptions zo_spec.
+
+(* from_sorted_strings accepts exactly the sorted lists without NUL bytes (the empty list included) and refuses all others *)
+Theorem zo_accepts :
+  forall ss,
+    (zo_from_sorted ss = Some (zo_build ss) <-> (Forall (no_byte 0) ss /\ sorted_strs ss)) /\
+    (zo_from_sorted ss = None <-> ~ (Forall (no_byte 0) ss /\ sorted_strs ss)).
+Proof. exact zo_accepts_proof. Qed.
+Check zo_accepts :
+  forall ss,
+    (zo_from_sorted ss = Some (zo_build ss) <-> (Forall (no_byte 0) ss /\ sorted_strs ss)) /\
+    (zo_from_sorted ss = None <-> ~ (Forall (no_byte 0) ss /\ sorted_strs ss)).
+Print Assumptions zo_accepts.
+
+(* SortableStrVec storage: for every list of strings that fits the field widths (each at most 2^20-1 bytes, 2^40-1 in total) all
+   pushes succeed and get(i) reads back the i-th pushed string through the packed 64-bit entry (offset | length << 40 | seq << 60);
+   get beyond the end is None *)
+Theorem ssv_push_get :
+  forall ss, fits 0 ss ->
+    exists v, ssv_push_all ssv_new ss = Some v /\
+      sv_arena v = concat ss /\ nlen (sv_entries v) = nlen ss /\
+      forall i, ssv_get v i = nth_error ss (N.to_nat i).
+Proof. exact ssv_push_get_proof. Qed.
+Check ssv_push_get :
+  forall ss, fits 0 ss ->
+    exists v, ssv_push_all ssv_new ss = Some v /\
+      sv_arena v = concat ss /\ nlen (sv_entries v) = nlen ss /\
+      forall i, ssv_get v i = nth_error ss (N.to_nat i).
+Print Assumptions ssv_push_get.
+
+(* a string longer than the 20-bit length field is refused (it would read back truncated) *)
+Theorem ssv_push_refuses :
+  forall v s, MAX_LENGTH < nlen s -> ssv_push v s = None.
+Proof. exact ssv_push_refuses_proof. Qed.
+Check ssv_push_refuses :
+  forall v s, MAX_LENGTH < nlen s -> ssv_push v s = None.
+Print Assumptions ssv_push_refuses.
+
+Example sorted_containers_nontrivial :
+  sorted_strs demo_strs /\ Forall (no_byte 0) demo_strs /\ fits 0 demo_strs /\
+  ssv_binary_search demo_strs [97; 98] 2 = Found 4%nat /\ ssv_binary_search demo_strs [97; 97] 2 = NotFound 4%nat /\
+  ssv_binary_search demo_strs [122] 3 = NotFound 9%nat /\ ssv_binary_search demo_strs [] 1 = Found 1%nat /\
+  ssv_binary_search demo_strs [98] 256 = Found 7%nat /\
+  zo_range (zo_build demo_strs) [97] [98] = [[97]; [97]; [97; 98]] /\ zo_get (zo_build demo_strs) 1 = Some [] /\
+  zo_iter (zo_build demo_strs) = demo_strs /\
+  zo_from_sorted [[98]; [97]] = None /\ zo_from_sorted [[97; 0; 98]] = None.
+Proof.
+  split; [exact demo_sorted|]. split; [repeat constructor|].
+  split; [split; [repeat constructor; vm_compute; discriminate|vm_compute; discriminate]|].
+  vm_compute. repeat split; reflexivity.
+Qed.
